@@ -126,6 +126,13 @@ type Tracker struct {
 	labelIDs map[string]int
 	clock    time.Time
 
+	// FinalBurst: iids of the issues that received the last events of the base generation, all of
+	// them within the tracker's last second (Params.Burst); the growth generation continues them
+	// within that very second.
+	FinalBurst []int
+	userBase   int // first user id of the instance
+	fresh      int // users created by FreshUser
+
 	// request log of the current round
 	round     []string
 	served    int
@@ -161,6 +168,39 @@ func NewTracker(projectID int, path string, ids IDSpace, perPage int) *Tracker {
 
 // SetClock moves the tracker's clock (must move forward).
 func (t *Tracker) SetClock(c time.Time) { t.clock = c }
+
+// Now is the tracker's clock: the time of the last thing that happened.
+func (t *Tracker) Now() time.Time { return t.clock }
+
+// newSecond moves the clock forward by d (at least one second) and then to offset after the
+// beginning of the second reached: room for several events within one second. The clock still
+// moves strictly forward.
+func (t *Tracker) newSecond(d, offset time.Duration) {
+	if d < time.Second {
+		d = time.Second
+	}
+	t.clock = t.clock.Add(d).Truncate(time.Second).Add(offset)
+}
+
+// roomInSecond says whether the clock can advance by d without leaving its second.
+func (t *Tracker) roomInSecond(d time.Duration) bool {
+	return time.Duration(t.clock.Nanosecond())+d < time.Second
+}
+
+var freshNames = []string{"Fresh Fred", "Nina \"nn\" N.", "Zo\u200be Z", "Omar \u202eramo\u202c", "Li", "Pat O'Hara"}
+
+// FreshUser registers a user nobody has seen before (no issue, note or event of the tracker
+// carries its id yet): an importer has to fetch it when it meets its first event.
+func (t *Tracker) FreshUser() int {
+	t.fresh++
+	id := t.userBase + 100 + t.fresh
+	u := &User{ID: id, Username: fmt.Sprintf("fresh%d", t.fresh), Name: freshNames[t.fresh%len(freshNames)]}
+	if t.fresh%2 == 0 {
+		u.PublicEmail = fmt.Sprintf("fresh%d@example.com", t.fresh)
+	}
+	t.AddUser(u)
+	return id
+}
 
 // Tick advances the clock by d and returns the new time.
 func (t *Tracker) Tick(d time.Duration) time.Time {
@@ -828,6 +868,22 @@ type Params struct {
 	// (title, description, comment, title change, label name), a one-line text whose only control
 	// characters are C1 controls (U+0080..U+009F). The other trackers get such texts by chance.
 	C1Texts bool `json:"c1_texts,omitempty"`
+	// Burst: targeted same-second histories. Every issue ends its generation with a "closing
+	// burst" (2..4 events within one second, the first by the issue's author, the second by a user
+	// nobody has seen yet); the base generation ends with a "final burst" (the last events of 1..3
+	// issues within the tracker's last second) and the growth generation starts with more events on
+	// those issues within that very second; the growth generation stays on the tracker's time line
+	// (no jump to 2100): the monitor plants the cursor the bridge would have stored had the import
+	// run at the tracker's time. All trackers get same-second bursts by chance.
+	Burst bool `json:"burst,omitempty"`
+	// CursorSkew: seconds (0..5) by which the importer's clock is ahead of the tracker's; the
+	// planted cursor is (second of the tracker's clock) + CursorSkew - 5 (the bridge stores
+	// "start of the run minus 5 s", in whole seconds).
+	CursorSkew int `json:"cursor_skew,omitempty"`
+	// CursorTie (with Burst, CursorSkew 5): the final burst is one event at S.000 on one issue and
+	// the growth starts with one more event on it carrying exactly that timestamp, so the issue's
+	// updated_at equals the planted cursor exactly (the boundary of updated_after).
+	CursorTie bool `json:"cursor_tie,omitempty"`
 }
 
 var hostileTitles = []string{
@@ -971,6 +1027,7 @@ func Generate(rng *rand.Rand, idx int, p Params) (*Tracker, map[string]int) {
 	if p.SmallIDs {
 		base = 0
 	}
+	t.userBase = base
 	t.AddUser(&User{ID: base + 1, Username: "importer-bot", Name: "Importer Bot", PublicEmail: "bot@example.com", AvatarURL: "https://gitlab.example/uploads/-/system/user/avatar/1/avatar.png"})
 	t.TokenUser = base + 1
 	t.AddUser(&User{ID: base + 2, Username: "alice", Name: "Alice A.", PublicEmail: "alice@example.com", AvatarURL: "https://secure.gravatar.com/avatar/aa?s=80&d=identicon"})
@@ -985,6 +1042,9 @@ func Generate(rng *rand.Rand, idx int, p Params) (*Tracker, map[string]int) {
 	for i := 0; i < p.Issues; i++ {
 		t.Tick(time.Duration(1+rng.Intn(3600)) * time.Second)
 		t.genIssue(rng, p, p.MaxActions, stats)
+	}
+	if p.Burst {
+		t.finalBurst(rng, p, stats)
 	}
 	t.labelStats(stats)
 	t.EndGeneration()
@@ -1087,24 +1147,257 @@ func (t *Tracker) genIssue(rng *rand.Rand, p Params, nAct int, stats map[string]
 		t.Tick(time.Duration(1+rng.Intn(600)) * time.Second)
 		stats["label-events"] += t.ClearLabels(is, who(), 0)
 	}
+	if p.Burst {
+		t.closingBurst(rng, is, p, stats)
+	}
 	return is
+}
+
+// ---- same-second bursts ------------------------------------------------------------------
+//
+// GitLab's timestamps have millisecond precision, git-bug's operations carry seconds: several
+// events of one issue within one second (a comment, a label change and a close by two people, or
+// one person's quick actions) are ordinary. Inside a burst the events are some tens of
+// milliseconds apart, so their order is known to every client; exact timestamp ties are only
+// produced between events whose relative order does not matter (see genActions).
+
+const (
+	bComment = iota
+	bLabel
+	bStateEvent
+	bStateNote
+	bTitle
+	bIgnored
+	bEdit
+	bDescription
+)
+
+// burstKinds lists the event kinds that always produce an operation; labels only on issues
+// without a planned label history.
+func burstKinds(is *Issue) []int {
+	if is.Plan == "" {
+		return []int{bComment, bLabel, bStateEvent, bTitle, bStateNote}
+	}
+	return []int{bComment, bStateEvent, bTitle, bStateNote}
+}
+
+// burstEvent performs one action of the given kind at the current clock.
+func (t *Tracker) burstEvent(rng *rand.Rand, is *Issue, p Params, user, kind int, stats map[string]int) {
+	switch kind {
+	case bEdit:
+		var notes []*Note
+		for _, n := range is.Notes {
+			if !n.System {
+				notes = append(notes, n)
+			}
+		}
+		if len(notes) > 0 {
+			body, k := HostileText(rng, false)
+			stats["text/"+k]++
+			t.EditNote(is, notes[rng.Intn(len(notes))], body)
+			stats["comment-edits"]++
+			return
+		}
+		fallthrough
+	case bComment:
+		body, k := HostileText(rng, false)
+		stats["text/"+k]++
+		t.Comment(is, user, body)
+		stats["comments"]++
+	case bLabel:
+		t.ToggleLabel(is, user, labelNames[rng.Intn(len(labelNames))])
+		stats["label-events"]++
+	case bStateEvent:
+		t.ToggleState(is, user, false)
+		stats["state-changes-as-event"]++
+	case bStateNote:
+		t.ToggleState(is, user, true)
+		stats["state-changes-as-note"]++
+	case bTitle:
+		t.SetTitle(is, user, pickTitle(rng, p))
+		stats["title-changes"]++
+	case bIgnored:
+		t.IgnoredSystemNote(is, user, ignoredNotes[rng.Intn(len(ignoredNotes))])
+		stats["ignored-system-notes"]++
+	case bDescription:
+		desc, k := HostileText(rng, false)
+		stats["text/"+k]++
+		t.SetDescription(is, user, desc)
+		stats["description-changes"]++
+	}
+}
+
+func ms(n int) time.Duration { return time.Duration(n) * time.Millisecond }
+
+// closingBurst ends the issue's generation with 2..4 events within one second: the first by the
+// issue's author (known to whoever imported the issue), the second by a user nobody has seen
+// yet, the others by either. The first two always produce an operation.
+func (t *Tracker) closingBurst(rng *rand.Rand, is *Issue, p Params, stats map[string]int) {
+	t.newSecond(time.Duration(1+rng.Intn(600))*time.Second, ms(rng.Intn(200)))
+	kinds := burstKinds(is)
+	act := t.actors()
+	n := 2 + rng.Intn(3)
+	for j := 0; j < n; j++ {
+		if j > 0 {
+			t.Tick(ms(20 + rng.Intn(180)))
+		}
+		user := is.AuthorID
+		kind := kinds[(t.Index+len(t.Issues)+j)%len(kinds)]
+		switch {
+		case j == 1 || (j > 1 && rng.Intn(2) == 0):
+			user = t.FreshUser()
+			stats["burst-events-by-not-yet-known-users"]++
+		case j > 1:
+			user = act[rng.Intn(len(act))]
+		}
+		if j > 1 {
+			if k := rng.Intn(len(kinds) + 3); k < len(kinds) {
+				kind = kinds[k]
+			} else {
+				kind = []int{bIgnored, bEdit, bDescription}[k-len(kinds)]
+			}
+		}
+		t.burstEvent(rng, is, p, user, kind, stats)
+		stats["burst-events"]++
+	}
+	stats["closing-bursts"]++
+	stats["same-second-bursts"]++
+}
+
+// finalBurst ends the base generation: the last events of 1..3 issues, all within the tracker's
+// last second. With CursorTie it is one event at exactly S.000.
+func (t *Tracker) finalBurst(rng *rand.Rand, p Params, stats map[string]int) {
+	t.FinalBurst = nil
+	t.newSecond(time.Duration(1+rng.Intn(3600))*time.Second, 0)
+	m := 1 + rng.Intn(3)
+	if m > len(t.Issues) {
+		m = len(t.Issues)
+	}
+	if p.CursorTie {
+		m = 1
+	}
+	for _, i := range rng.Perm(len(t.Issues))[:m] {
+		is := t.Issues[i]
+		kinds := burstKinds(is)
+		kind := kinds[rng.Intn(len(kinds))]
+		if p.CursorTie {
+			// the growth adds an event with this very timestamp: only kinds whose order does not matter
+			kind = bComment
+			if is.Plan == "" && rng.Intn(2) == 0 {
+				kind = bLabel
+			}
+		} else {
+			t.Tick(ms(10 + rng.Intn(50)))
+		}
+		t.burstEvent(rng, is, p, is.AuthorID, kind, stats)
+		stats["burst-events"]++
+		if !p.CursorTie && rng.Intn(3) == 0 {
+			t.Tick(ms(10 + rng.Intn(50)))
+			t.burstEvent(rng, is, p, t.FreshUser(), bComment, stats)
+			stats["burst-events"]++
+			stats["burst-events-by-not-yet-known-users"]++
+		}
+		t.FinalBurst = append(t.FinalBurst, is.IID)
+		stats["issues-in-the-final-burst"]++
+	}
+	stats["same-second-bursts"]++
+}
+
+// growBurst starts the growth generation of a burst tracker: every issue of the final burst gets
+// 1..3 more events within the second of its last event (which an importer that ran in between has
+// already stored). With CursorTie the first new event carries exactly the timestamp of the last
+// imported one. Returns the iids handled.
+func (t *Tracker) growBurst(rng *rand.Rand, p Params, stats map[string]int) map[int]bool {
+	done := map[int]bool{}
+	act := t.actors()
+	for idx, iid := range t.FinalBurst {
+		is := t.issueByIID(strconv.Itoa(iid))
+		if is == nil {
+			continue
+		}
+		done[iid] = true
+		n := 1 + rng.Intn(3)
+		added := 0
+		for j := 0; j < n; j++ {
+			tie := p.CursorTie && idx == 0 && j == 0
+			kinds := burstKinds(is)
+			kind := kinds[rng.Intn(len(kinds))]
+			if tie {
+				// same timestamp as the last imported event: only kinds whose order does not matter
+				kind = bComment
+				if is.Plan == "" && rng.Intn(2) == 0 {
+					kind = bLabel
+				}
+				stats["events-with-the-timestamp-of-the-last-imported-event"]++
+			} else {
+				d := ms(10 + rng.Intn(40))
+				if !t.roomInSecond(d) {
+					break
+				}
+				t.Tick(d)
+			}
+			user := act[rng.Intn(len(act))]
+			if j == 0 && rng.Intn(2) == 0 {
+				user = t.FreshUser()
+				stats["burst-events-by-not-yet-known-users"]++
+			}
+			t.burstEvent(rng, is, p, user, kind, stats)
+			stats["burst-events"]++
+			added++
+		}
+		if is.Plan == PlanDropLabelsInGrowth && t.roomInSecond(ms(50)) {
+			is.Plan = ""
+			t.Tick(ms(10 + rng.Intn(40)))
+			k := t.ClearLabels(is, act[rng.Intn(len(act))], 0)
+			stats["label-events"] += k
+			added += k
+			stats["issues-with-planned-label-removal"]++
+		}
+		if added > 0 {
+			stats["issues-grown-within-the-second-of-their-last-imported-event"]++
+			stats["events-within-the-second-of-the-last-imported-event"] += added
+		}
+	}
+	return done
 }
 
 // genActions performs n random user actions on the issue.
 func (t *Tracker) genActions(rng *rand.Rand, is *Issue, p Params, n int, stats map[string]int) {
 	act := t.actors()
 	who := func() int { return act[rng.Intn(len(act))] }
+	burstLeft := 0
 	for k := 0; k < n; k++ {
 		// GitLab timestamps have millisecond precision: several label events of one request,
 		// or a comment next to another event, can share a timestamp. Two state changes, title
 		// changes or description changes never do (ties between an old-style state note and a
-		// state event would make the true order unknowable to any client).
+		// state event would make the true order unknowable to any client) - but they do happen
+		// within one second, some tens of milliseconds apart (a burst).
 		r := rng.Intn(20)
 		orderFree := r < 6 || (r >= 13 && r < 16) || r >= 19
-		if orderFree && rng.Intn(4) == 0 {
+		switch {
+		case orderFree && rng.Intn(4) == 0:
 			stats["timestamp-ties"]++
-		} else {
+		case burstLeft > 0 && t.roomInSecond(ms(200)):
+			burstLeft--
+			t.Tick(ms(20 + rng.Intn(180)))
+			stats["burst-events"]++
+		default:
+			burstLeft = 0
 			t.Tick(time.Duration(1+rng.Intn(7200)) * time.Second)
+			if rng.Intn(5) == 0 {
+				// this event and the next 1..3 happen within one second
+				burstLeft = 1 + rng.Intn(3)
+				t.newSecond(time.Second, ms(rng.Intn(300)))
+				stats["same-second-bursts"]++
+				stats["burst-events"]++
+			}
+		}
+		who := who
+		if burstLeft > 0 && rng.Intn(3) == 0 {
+			who = func() int {
+				stats["burst-events-by-not-yet-known-users"]++
+				return t.FreshUser()
+			}
 		}
 		switch {
 		case r < 6:
@@ -1168,16 +1461,28 @@ func (t *Tracker) genActions(rng *rand.Rand, is *Issue, p Params, n int, stats m
 // stored, independent of when the check runs.
 func (t *Tracker) Grow(rng *rand.Rand, p Params) map[string]int {
 	stats := map[string]int{}
-	t.SetClock(time.Date(2100+t.Gen, 3, 1, 8, 0, 0, 0, time.UTC))
-	nOld := len(t.Issues)
-	touch := p.GrowTouch
-	if touch > nOld {
-		touch = nOld
+	skip := map[int]bool{}
+	if p.Burst {
+		// stays on the tracker's time line: first more events within the last second, then later ones
+		skip = t.growBurst(rng, p, stats)
+	} else {
+		t.SetClock(time.Date(2100+t.Gen, 3, 1, 8, 0, 0, 0, time.UTC))
 	}
-	perm := rng.Perm(nOld)
-	for _, i := range perm[:touch] {
+	nOld := len(t.Issues)
+	var cand []int
+	for i, is := range t.Issues {
+		if !skip[is.IID] {
+			cand = append(cand, i)
+		}
+	}
+	touch := p.GrowTouch
+	if touch > len(cand) {
+		touch = len(cand)
+	}
+	perm := rng.Perm(len(cand))
+	for _, k := range perm[:touch] {
 		t.Tick(time.Duration(1+rng.Intn(3600)) * time.Second)
-		t.genActions(rng, t.Issues[i], p, 1+rng.Intn(p.GrowAct), stats)
+		t.genActions(rng, t.Issues[cand[k]], p, 1+rng.Intn(p.GrowAct), stats)
 		stats["issues-touched"]++
 	}
 	// targeted: the issues planned so lose every label they carry (after whatever else happened
